@@ -12,6 +12,7 @@ executed in a FRESH INTERPRETER as the reference, and against the model.
 import os
 import shutil
 import tempfile
+from datetime import timedelta
 
 from vh import core, fresh, gen, scenario as S, seekcheck as K, taskcheck as T
 
@@ -30,6 +31,27 @@ def seq_def(rng):
             'body': {'pats': [r'.*\bB\b'], 'store': True},
             'end': ({'pats': [rng.choice([r'.*\bE\b', r'(?:.*\bE\b)|$'])], 'store': True}
                     if rng.random() < 0.8 else None)}
+
+
+TS_RE = None
+
+
+def shift_timestamps(content, delta):
+    """ every leading 'YYYY-MM-DD HH:MM:SS' shifted by delta, byte length unchanged """
+    import re
+    from datetime import datetime
+    out = []
+    for line in content.split(b'\n'):
+        m = re.match(rb'(\d{4}-\d{2}-\d{2}) (\d{2}:\d{2}:\d{2})', line)
+        if m:
+            try:
+                t = datetime.strptime(m.group(0).decode(), '%Y-%m-%d %H:%M:%S') + delta
+                if 1000 <= t.year <= 9999:
+                    line = t.strftime('%Y-%m-%d %H:%M:%S').encode() + line[m.end():]
+            except ValueError:
+                pass
+        out.append(line)
+    return b'\n'.join(out)
 
 
 def gen_history(rng, tier, multi):
@@ -62,14 +84,34 @@ def gen_history(rng, tier, multi):
         return files
     nsteps = rng.choice([2, 2, 3, 4])
     files = mk_files()
+    regs = None
     for i in range(nsteps):
-        how = rng.choice(['repeat', 'repeat', 'rewrite', 'new_searcher']) if i else 'first'
+        how = rng.choice(['repeat', 'repeat', 'rewrite', 'rewrite_same_size', 'new_searcher',
+                          'grow']) if i else 'first'
+        if how == 'rewrite_same_size' and not use_ts:
+            how = 'rewrite'
+        new_regs = []
         if how == 'rewrite':
-            files = mk_files()
-        regs = [[d, k] for d in range(len(defs)) for k in range(nfiles) if rng.random() < 0.85]
-        if not regs:
-            regs = [[0, 0]]
-        steps.append({'how': how, 'files': files, 'regs': regs})
+            fresh = mk_files()
+            files = [dict(f, content=fresh[i % len(fresh)]['content']) for i, f in enumerate(files)]
+        elif how == 'rewrite_same_size':
+            # same paths, same byte sizes, every timestamp shifted: the first in-window line moves
+            delta = timedelta(days=rng.choice([-3, -1, 1, 2, 5]), hours=rng.choice([0, 7]))
+            files = [dict(f, content=shift_timestamps(bytes.fromhex(f['content']), delta).hex())
+                     for f in files]
+        elif how == 'grow':
+            # the same searcher gets one more file (1 file -> 2 files switches to worker processes)
+            k = len(files)
+            extra = mk_files()[0]
+            extra['name'] = f'g{k}.log'
+            files = files + [extra]
+            new_regs = [[d, k] for d in range(len(defs)) if rng.random() < 0.9] or [[0, k]]
+        if how in ('first', 'new_searcher') or regs is None:
+            regs = [[d, k] for d in range(len(defs)) for k in range(len(files))
+                    if rng.random() < 0.85] or [[0, 0]]
+        else:
+            regs = regs + new_regs
+        steps.append({'how': how, 'files': files, 'regs': list(regs), 'new_regs': new_regs})
     hist = {'defs': defs, 'steps': steps}
     if use_ts:
         hist['constraints'] = [K.gen_since(rng, all_times, kind)]
@@ -84,7 +126,7 @@ def gen_history(rng, tier, multi):
 def step_scn(hist, step):
     scn = {k: v for k, v in hist.items() if k != 'steps'}
     scn['files'] = step['files']
-    scn['regs'] = step['regs'] if step['how'] in ('first', 'new_searcher') else step['_regs']
+    scn['regs'] = step['regs']
     return scn
 
 
@@ -93,11 +135,7 @@ def run_history(hist):
     obs = []
     try:
         built, fs = None, None
-        regs = None
         for step in hist['steps']:
-            if step['how'] in ('first', 'new_searcher'):
-                regs = step['regs']
-            step['_regs'] = regs
             scn = step_scn(hist, step)
             if built is None:
                 built = S.Built(scn, tmpdir)
@@ -107,6 +145,9 @@ def run_history(hist):
                     built.write_file(f)
             if step['how'] in ('first', 'new_searcher'):
                 fs = built.searcher()
+            else:
+                for di, fi in step.get('new_regs', []):
+                    fs.add(built.defs[di], os.path.join(tmpdir, scn['files'][fi]['name']))
             obs.append(S.run_searcher(built, fs, S.scenario_K(scn)))
         return obs
     finally:
